@@ -1,16 +1,16 @@
 (* C35 - MapList.__init__ and MapItem.parse (androguard/core/dex/__init__.py): the map list is read (a count from the file, then one
    12-byte map_item per count), and every item's section is parsed from its own offset - a count from the file, one record per count.
-   Modelled section kinds: the id tables (string, type, proto, field ids: records of 4, 4, 12, 8 bytes), string data, code items, encoded arrays, annotation items, type lists,
+   Modelled section kinds: the id tables (string, type, proto, field ids: records of 4, 4, 12, 8 bytes), string data, code items, encoded arrays, annotation items, class data, type lists,
    annotation set ref lists, annotation set items (a 32-bit count, then records of 2, 4, 4 bytes; a type list of odd length is
    followed by two bytes of padding, read without a check), annotations directories (four words, then three lists of 8-byte records)
    and the map list itself (not parsed again).  Method ids are records of 8 bytes, but MethodIdItem resolves its prototype while it is read: the
    model has no cross references and is compared with the code on empty method id tables only.  The other kinds (header, class
-   definitions, class data, debug info, hidden API data) have models of their own or none: a map that
+   definitions, debug info, hidden API data) have models of their own or none: a map that
    names one is outside this model (OtherError).  A value that is no TypeMapItem raises ValueError while the list is read.
    The file is the list of its bytes; a BytesIO positioned at p is (skipn p buf); reading k bytes from fewer raises struct.error. *)
 From Coq Require Import ZArith List Bool Lia.
 Require Import V.Lib.Val V.Lib.Result V.Dex.LebModel V.Dex.StringsModel V.Dex.MapOrderModel V.gen.Gen_MapDeps.
-Require V.Dex.EncodedValueModel.
+Require V.Dex.EncodedValueModel V.Dex.ClassDataModel.
 Import ListNotations.
 Open Scope Z_scope.
 
@@ -100,7 +100,13 @@ Definition rd_annotation (fuel : nat) (bs : bytes) : result (Z * bytes) :=
   do '(_, r2) <- EncodedValueModel.parse_step (EncodedValueModel.parse_value fuel) EncodedValueModel.VALUE_ANNOTATION r;
   Ok (vis, r2).
 
-Inductive kind := KFixed (k : nat) | KSized (k : nat) (pad_odd : bool) | KAnnDir | KSelf | KOutside | KStrData | KCode | KNothing | KEncArray | KAnnotation.
+(* class_data_item: the model of C05 (four sizes, then the index-diff encoded fields and methods); the number of its members *)
+Definition rd_classdata (bs : bytes) : result (Z * bytes) :=
+  do '(cd, r) <- ClassDataModel.read_class_data bs;
+  Ok (Z.of_nat (length (ClassDataModel.cd_sfields cd) + length (ClassDataModel.cd_ifields cd) +
+                length (ClassDataModel.cd_dmethods cd) + length (ClassDataModel.cd_vmethods cd)), r).
+
+Inductive kind := KFixed (k : nat) | KSized (k : nat) (pad_odd : bool) | KAnnDir | KSelf | KOutside | KStrData | KCode | KNothing | KEncArray | KAnnotation | KClassData.
 (* TypeMapItem(value): None when the value is no member of the enum *)
 Definition kind_of (ty : Z) : option kind :=
   if ty =? 1 then Some (KFixed 4) else if ty =? 2 then Some (KFixed 4) else if ty =? 3 then Some (KFixed 12)
@@ -108,12 +114,12 @@ Definition kind_of (ty : Z) : option kind :=
   else if ty =? 4097 then Some (KSized 2 true) else if ty =? 4098 then Some (KSized 4 false) else if ty =? 4099 then Some (KSized 4 false)
   else if ty =? 8198 then Some KAnnDir else if ty =? 4096 then Some KSelf
   else if ty =? 8194 then Some KStrData else if ty =? 8193 then Some KCode
-  else if ty =? 8197 then Some KEncArray else if ty =? 8196 then Some KAnnotation
+  else if ty =? 8197 then Some KEncArray else if ty =? 8196 then Some KAnnotation else if ty =? 8192 then Some KClassData
   else if (ty =? 7) || (ty =? 8) then Some KNothing          (* call sites, method handles: members of the enum MapItem.parse has no branch for *)
-  else if (ty =? 0) || (ty =? 6) || (ty =? 8192) || (ty =? 8195) || (ty =? 61440) then Some KOutside
+  else if (ty =? 0) || (ty =? 6) || (ty =? 8195) || (ty =? 61440) then Some KOutside
   else None.
 (* where MapItem.parse seeks to: the string ids at their offset, the others at offset + offset % 4 *)
-Definition start_of (ty off : Z) : Z := if (ty =? 1) || (ty =? 8194) || (ty =? 8196) || (ty =? 8197) then off else off + off mod 4.
+Definition start_of (ty off : Z) : Z := if (ty =? 1) || (ty =? 8194) || (ty =? 8196) || (ty =? 8197) || (ty =? 8192) then off else off + off mod 4.
 
 (* MapItem.parse: the number of objects the section gave (for a list of sized records: the number of lists) *)
 Definition section (fuel : nat) (buf : bytes) (ty count off : Z) : result Z :=
@@ -127,6 +133,7 @@ Definition section (fuel : nat) (buf : bytes) (ty count off : Z) : result Z :=
   | Some KCode => do '(xs, _) <- read_n (rd_code (length buf) fuel) fuel count bs []; Ok (Z.of_nat (length xs))
   | Some KEncArray => do '(xs, _) <- read_n (rd_encarray fuel) fuel count bs []; Ok (Z.of_nat (length xs))
   | Some KAnnotation => do '(xs, _) <- read_n (rd_annotation fuel) fuel count bs []; Ok (Z.of_nat (length xs))
+  | Some KClassData => do '(xs, _) <- read_n rd_classdata fuel count bs []; Ok (Z.of_nat (length xs))
   | Some (KFixed k) => do '(xs, _) <- read_n (rd_fixed k) fuel count bs []; Ok (Z.of_nat (length xs))
   | Some (KSized k p) => do '(xs, _) <- read_n (rd_sized k p fuel) fuel count bs []; Ok (Z.of_nat (length xs))
   | Some KAnnDir => do '(xs, _) <- read_n (rd_anndir fuel) fuel count bs []; Ok (Z.of_nat (length xs))
